@@ -54,7 +54,7 @@ def source_hash(path):
     return hashlib.sha256(src.encode()).hexdigest()[:16]
 
 
-class _JobTimeout(Exception):
+class _JobTimeout(BaseException):
     pass
 
 
